@@ -465,6 +465,36 @@ def _content(ctx, em):
                'the object dumped is the /scheduled manifest of that '
                'instance: %s = %s' % (dumped, defs.get(dumped)),
                construct='dumped object')
+        # the file is written in the format its reader parses
+        # (appcfg.manifest.load reads the event file as YAML)
+        wfmt = None
+        if isinstance(inner, ast.Call) and isinstance(
+                inner.func, ast.Attribute) and inner.func.attr in (
+                    'dump', 'safe_dump', 'dumps') and isinstance(
+                        inner.func.value, ast.Name):
+            target = cache.module.imports.get(inner.func.value.id, '')
+            if 'yaml' in target:
+                wfmt = 'yaml'
+            elif target.split('.')[-1] == 'json':
+                wfmt = 'json'
+        rmod = ctx.index.module('treadmill.appcfg.manifest')
+        rload = rmod.functions.get('load') if rmod else None
+        ctx.require(rload is not None, 'appcfg.manifest.load', rule='C12.5')
+        rfmt = None
+        for rc in K.calls(rload.node):
+            if K.callee_text(rc) == 'read' and len(rc.args) == 2 and \
+                    isinstance(rc.args[1], ast.Constant):
+                rfmt = rc.args[1].value
+            elif K.callee_text(rc) == 'read' and K.kwarg(
+                    rc, 'file_format') is not None and isinstance(
+                        K.kwarg(rc, 'file_format'), ast.Constant):
+                rfmt = K.kwarg(rc, 'file_format').value
+            elif K.callee_text(rc).endswith('yaml.load'):
+                rfmt = 'yaml'
+        ctx.ob('C12.5', cache, node, wfmt is not None and wfmt == rfmt,
+               'the cache file is written in the format its reader parses '
+               '(writer: %s, reader: %s)' % (wfmt, rfmt),
+               construct='serialiser agrees with the reader')
         tasks = [n for n in graph.nodes if n.kind == 'stmt' and
                  isinstance(n.ast, ast.Assign) and
                  N.txt(n.ast.targets[0]) in ["%s['task']" % nm
